@@ -25,7 +25,8 @@
 (***************************************************************************)
 EXTENDS EvySyntax, Json
 
-CONSTANTS StopMode      \* "none": never stop; "any": the platform may raise stop before any step
+CONSTANTS StopMode,     \* "none": never stop; "any": the platform may raise stop before any step
+          Lys           \* the layouts in which Emit renders the program text: subset of {"canon","tight","wide"}
 
 VARIABLES st,           \* the machine state
           cs            \* the case: [prog, inputs, events, failFast, noSummary, fam, class]; never changes
@@ -692,7 +693,7 @@ EventExpect(s) ==
 
 CaseJson(s) ==
   [fam |-> TheCase.fam, class |-> TheCase.class,
-   srcs |-> [canon |-> RProg(TheProg, "canon"), tight |-> RProg(TheProg, "tight"), wide |-> RProg(TheProg, "wide")],
+   srcs |-> [ly \in Lys |-> RProg(TheProg, ly)],
    inputs |-> [i \in DOMAIN TheCase.inputs |-> [cp |-> TheCase.inputs[i]]],
    events |-> [i \in 1..s.evi |-> [name |-> TheCase.events[i].ev, args |-> TheCase.events[i].args]],
    failFast |-> TheCase.failFast, noTestSummary |-> TheCase.noSummary,
